@@ -179,6 +179,15 @@ func GenScenario(r *rand.Rand, family string, idx int, o Opt) Scenario {
 				cs[i].LeaveOpen = true
 			}
 		}
+		// one connection that is certainly in the middle of its stream when the stop arrives (a record every half millisecond
+		// for 150 ms): the inputs must be stopped, and their last records flushed, before the pipelines go
+		busy := ConnSpec{ID: nextID, LeaveOpen: true, GapUs: 500}
+		nextID++
+		for q := 1; q <= 300; q++ {
+			busy.Recs = append(busy.Recs, Rec{Conn: busy.ID, Seq: q, App: apps[q%2], Sev: 6, Host: "h1", Kind: "plain", Pad: 20})
+		}
+		busy.WriteSize = len(busy.Recs[0].Line()) + 1 // about one record per write
+		cs = append(cs, busy)
 		sc.Gens = []GenSpec{{Conns: cs, UpScript: healthy(), StopDelayMs: r.Intn(30)}, {UpScript: healthy(), WaitAcked: true}}
 	case "wrong-id":
 		sc.MaxDurMs = 150 + r.Intn(200) // the ignored ACK's chunk is retransmitted at session renewal
@@ -241,6 +250,13 @@ func GenScenario(r *rand.Rand, family string, idx int, o Opt) Scenario {
 			s = append(s, upstream.Step{Kind: "reset", N: r.Intn(3), AckLast: false})
 		}
 		cs := conns()
+		// one key set only: the upstream's script is consumed per connection attempt, and only with a single pipeline does that
+		// pipeline see the whole sequence never-ack, reset, ..., healthy
+		for ci := range cs {
+			for ri := range cs[ci].Recs {
+				cs[ci].Recs[ri].App, cs[ci].Recs[ri].Sev = "appA", 6
+			}
+		}
 		long := ConnSpec{ID: nextID}
 		nextID++
 		for q := 1; q <= 40; q++ {
